@@ -135,8 +135,14 @@ func polledStack(s string) string {
 	fr := strings.Split(s, "<")
 	var out []string
 	for i, f := range fr {
-		if f == "verifHeld" {
+		switch f {
+		case "verifHeld", "verifPreLock", "verifYield", "verifLockObj":
 			continue
+		case "logCtx", "IsLeader", "Token", "LeaderID", "getMetricsLabels", "recordLeaderDuration", "recordTransition", "updateIsLeaderMetric":
+			// accessors and metric helpers in which a yield in front of an atomic operation sits
+			if len(out) == 0 {
+				continue
+			}
 		}
 		if len(out) == 0 && strings.HasPrefix(f, "dh.stop") {
 			continue
